@@ -40,7 +40,14 @@ CUR = {}
 
 
 def streams(ctx):
-    return [("docstrings", ctx.scale(2500, 40000)), ("keyword_prose", ctx.scale(800, 12000))]
+    return [("docstrings", ctx.scale(2500, 40000)), ("keyword_prose", ctx.scale(800, 12000)),
+            ("format_prose", ctx.scale(800, 12000))]
+
+
+# prose carrying what a template engine, a %-format, a shell or a markup language would interpret (to a docstring converter
+# it is text)
+FORMAT_WORDS = ["{x}", "{{placeholder}}", "{name: value}", "{}", "{", "}", "%s", "%(name)s", "100%", "$var", "${HOME}", "\\n",
+                "\\t", "{0}", "<tag>", "&amp;", "|", "~", "{_tab}", "{name}", "%d items", "{!r}"]
 
 
 def post_split(current_doc_str, original_doc_str, result):
@@ -111,6 +118,13 @@ def in_order(needles, haystack_lines):
 
 
 def run_case(ctx, P, stream, idx):
+    if stream == "format_prose":
+        with irgen.extra_words(FORMAT_WORDS * 2):
+            return _run_case(ctx, P, stream, idx)
+    return _run_case(ctx, P, stream, idx)
+
+
+def _run_case(ctx, P, stream, idx):
     r = ctx.rng(stream, idx)
     S = r.choice(STYLES)
     indent = r.randint(0, 2)
